@@ -53,6 +53,8 @@ type variant struct {
 	metaAge   time.Duration   // MetadataMaxAge (0: 10 min, i.e. no periodic refresh inside an execution)
 	envAt     int             // ENV starts after this many T1 polls returned
 	full2     bool            // thorough tier: any second deviation (default: the second deviation must be a fault)
+	hookGate  bool            // hook family: wrap the HookLedger so that "a dispatch of poll g is running" can gate a thread
+	slowHook  time.Duration   // hook family: OnFetchRecordUnbuffered takes this long (virtual) per record
 	weight    float64
 }
 
@@ -100,6 +102,10 @@ type state struct {
 	lastFetch   time.Time // virtual instant of the last delivered Fetch request
 	sameTick    int       // consecutive Fetch requests delivered within 1 ms of the previous one
 	moved       string
+	// Hook family: the poll T1 is inside (0: none) and the polls during which
+	// an OnFetchRecordUnbuffered call was seen.
+	curPoll      int
+	dispatchSeen map[int]bool
 }
 
 func (st *state) missing() (out []string) {
@@ -371,9 +377,13 @@ func newState(x *netctl.Exec, v *variant, extra ...kgo.Opt) *state {
 			x.Violate("harness:preload", "t/%d: unexpected log shape: %d control, %d aborted, %d expected", p, nctl, nab, ndata)
 		}
 	}
+	var hook kgo.Hook = st.hooks
+	if v.hookGate {
+		hook = &gateHook{HookLedger: st.hooks, st: st, slow: v.slowHook}
+	}
 	opts := []kgo.Opt{
 		kgo.FetchMaxWait(500 * time.Millisecond),
-		kgo.WithHooks(st.hooks),
+		kgo.WithHooks(hook),
 	}
 	if v.starts != nil {
 		parts := map[int32]kgo.Offset{}
